@@ -90,12 +90,17 @@ static double Reinterpret_dbl(int64_t z) { return *(double*)&z; }
 #define CreateCPolyPath64 CreateCPolyPathD
 #define CreateCPolyTree64 CreateCPolyTreeD
 #endif
-size_t nondet_size(void); int64_t nondet_i64(void); bool nondet_bool(void);
+size_t nondet_size(void); int64_t nondet_i64(void); bool nondet_bool(void); ELT nondet_elt(void);
 PolyPath64 g_node, g_c0, g_c1; Point64 g_poly[(CAP - 2) / D];
 static void mk_node(void)
 {
   g_node.count = nondet_size(); __CPROVER_assume(g_node.count <= 2); g_node.c0 = &g_c0; g_node.c1 = &g_c1;
   g_node.polygon_.data = g_poly; g_node.polygon_.size = nondet_size(); __CPROVER_assume(g_node.polygon_.size <= (CAP - 2) / D);
+  for (int i = 0; i < (CAP - 2) / D; ++i) { g_poly[i].x = nondet_elt(); g_poly[i].y = nondet_elt();
+#ifdef USINGZ
+    g_poly[i].z = nondet_i64();
+#endif
+  }
   g_c0.g_len = nondet_size(); g_c1.g_len = nondet_size(); __CPROVER_assume(g_c0.g_len >= 2 && g_c0.g_len <= CAP && g_c1.g_len >= 2 && g_c1.g_len <= CAP);
   g_node.g_len = 2 + D * g_node.polygon_.size + (g_node.count >= 1 ? g_c0.g_len : 0) + (g_node.count >= 2 ? g_c1.g_len : 0);
   __CPROVER_assume(g_node.g_len <= CAP);
@@ -129,12 +134,12 @@ void h_Tree(void)
   VF_CANARY();
 }
 #endif
-//@run name=GetPolyPathArrayLen64 entry=h_Len unwind=4 flags=SAFETY timeout=300 bounded="at most 2 children per node (depth by induction)"
+//@run name=GetPolyPathArrayLen64 entry=h_Len unwind=13 flags=SAFETY timeout=300 bounded="at most 2 children per node (depth by induction)"
 //@run name=CreateCPolyPath64 entry=h_Create unwind=13 flags=SAFETY timeout=600 bounded="at most 2 children per node, polygon of at most 11 vertices (depth by induction)"
 //@run name=CreateCPolyPath64.z entry=h_Create defs=USINGZ unwind=9 flags=SAFETY timeout=600 bounded="at most 2 children per node, polygon of at most 7 vertices, USINGZ layout (depth by induction)" props=C17,C15,C10
-//@run name=CreateCPolyTree64 entry=h_Tree defs=TOP,TOP64 unwind=4 flags=SAFETY timeout=600 bounded="at most 2 top-level children (depth by induction)"
+//@run name=CreateCPolyTree64 entry=h_Tree defs=TOP,TOP64 unwind=13 flags=SAFETY timeout=600 bounded="at most 2 top-level children (depth by induction)"
 //@assume A5 (C17_polytree): the recursive calls are stand-ins that state the induction hypothesis for a child (its block is exactly g_len long and fits); PolyPath64 is a node with a polygon, two child slots and the ghost block length; `new int64_t[n]` is a fixed block of 24 elements with the requested length recorded, every write is checked against it.
-//@run name=GetPolyPathArrayLenD entry=h_Len defs=DVAR unwind=4 flags=SAFETY timeout=300 bounded="at most 2 children per node (depth by induction)"
+//@run name=GetPolyPathArrayLenD entry=h_Len defs=DVAR unwind=13 flags=SAFETY timeout=300 bounded="at most 2 children per node (depth by induction)"
 //@run name=CreateCPolyPathD entry=h_Create defs=DVAR unwind=13 flags=SAFETY timeout=600 bounded="at most 2 children per node, polygon of at most 11 vertices (depth by induction)"
 //@run name=CreateCPolyPathD.z entry=h_Create defs=DVAR,USINGZ unwind=9 flags=SAFETY timeout=600 bounded="at most 2 children per node, polygon of at most 7 vertices, USINGZ layout (depth by induction)" props=C17,C15,C10
-//@run name=CreateCPolyTreeD entry=h_Tree defs=DVAR,TOP,TOPD unwind=4 flags=SAFETY timeout=600 bounded="at most 2 top-level children (depth by induction)"
+//@run name=CreateCPolyTreeD entry=h_Tree defs=DVAR,TOP,TOPD unwind=13 flags=SAFETY timeout=600 bounded="at most 2 top-level children (depth by induction)"
